@@ -475,7 +475,7 @@ THEOREM_SITE = {
     "C06_error_heap_bounded": ["errbuf"], "C06_error_heap_index": ["errbuf"],
     "C06_nonzero_exit_has_diagnostic": ["exit_discipline"], "C06_zero_exit_no_error_nothing_buffered": ["exit_discipline"],
     "C06_run_ends_and_abort_after_diagnostic": ["exit_discipline"], "C06_every_exit_site_prints": ["exit_discipline"],
-    "C06_rename_search_terminates": ["use_cycle"], "C06_import_graph_walks_terminate": ["use_cycle"], "C06_no_overflow_scan_buffers": ["scan_buffers"], "C06_no_overflow_open_comment": ["open_comment"],
+    "C06_rename_search_terminates": ["use_cycle"], "C06_rename_resolution_terminates": ["use_cycle"], "C06_import_graph_walks_terminate": ["use_cycle"], "C06_no_overflow_scan_buffers": ["scan_buffers"], "C06_no_overflow_open_comment": ["open_comment"],
     "C06_no_overflow_schema_file_name": ["schema_file", "schema_path"], "C06_schema_path_leaf_in_range": ["schema_path"],
     "C06_no_overflow_escape_buffer": ["escape_buffer"], "C06_no_overflow_exprto_python": ["exprto_python"],
     "C06_select_qualifier_terminates": ["selectsearch"], "C06_nesting_bounded": ["deep_left_sum", "stmt_if", "nested_aggr_type"],
@@ -714,6 +714,24 @@ def run(ctx):
                 run_.bad.append((f"exit:{verdict}", b"", None, None, r))
             elif pred != f"status {r['rc']}":
                 disagreements.append(("exit", verdict, t, pred, f"rc={r['rc']} ({r['cls']})"))
+    # item-wise interface resolution as a whole: rings and chains of `USE FROM next (x)`
+    for n in (1, 2, 3, 10, 60):
+        for kind in ("closed", "missing", "declared"):
+            pred = model.one(f"renamering {n} {int(kind == 'closed')}")
+            tag = f"boundary:rename_ring:{kind}:{n}"
+            res = run_.run([(tag, G.rename_ring(n, kind), None, None)], timeout=tmo)
+            for t in R.TOOLS:
+                r = res[(tag, t)]
+                ncomp += 1
+                if pred.startswith("returns"):
+                    if r["cls"] in R.BAD:
+                        disagreements.append(("use_cycle", f"{kind}:{n}", t, pred, f"{r['cls']} {r['sig']}"))
+                    elif kind != "declared" and r["cls"] != "reject":
+                        disagreements.append(("use_cycle", f"{kind}:{n}", t, pred, f"{r['cls']} rc={r['rc']} (an item nobody declares was accepted)"))
+                    elif kind == "declared" and t == "check-express" and r["cls"] != "accept":
+                        disagreements.append(("use_cycle", f"{kind}:{n}", t, pred, f"{r['cls']} rc={r['rc']}: {r['diag'][:100]}"))
+                elif r["cls"] not in R.BAD:
+                    disagreements.append(("use_cycle", f"{kind}:{n}", t, pred, f"{r['cls']} rc={r['rc']}"))
     # exit-status discipline: inputs with a known sequence of reports, with and without -B; invocations without an input file
     ncomp += exit_discipline_stream(ctx, b, model, tmo, disagreements)
     ctx.cov["correspondence"]["boundary"] = {"comparisons": ncomp, "disagreements": len(disagreements),
